@@ -38,6 +38,7 @@ def cases(tier):
         out.append({"name": f"generator/k{k}", "kind": "generator", "k": k, "K": 3 if tier == "quick" else 4})
         out.append({"name": f"generate/k{k}", "kind": "single", "k": k})
     out.append({"name": "non-generable", "kind": "nongen"})
+    out.append({"name": "real-components", "kind": "real"})
     return out
 
 
@@ -175,6 +176,37 @@ def run_case(case, g, tier, res):
             return out is not None
 
         explore_case(res, h, tier, on_path=on_path)
+    elif kind == "real":
+        # the same loop with the components' real generate (tiny molecules): ties the stub to reality
+        def h(c):
+            system = g.System("C.|50%|CC.|100|")
+            S = c.fresh_real("S", 1, 40)
+            f0 = c.fresh_real("f0", 0, 100, lo_strict=True)
+            c.assume(f0 < 100)
+            for mol, f in zip(system._molecules, (f0, 100 - f0)):
+                mol.mixture._relative_mass = f
+                mol.mixture._system_mass = S
+                mol.mixture._absolute_mass = f / 100.0 * S
+            rng = SymRng()
+            System.generator.fget.__defaults__ = (rng,)
+            info = lambda: {"S": S, "f0": f0, "picks": str([r.index for r in rng.calls])}
+            out = []
+            for m in system.generator:
+                out.append(m)
+                c.prove(len(out) <= 4, "unwinding bound", detail("more molecules than S / 12", info))
+            masses = {0: 12.011, 1: 24.022}
+            smis = {0: "C", 1: "CC"}
+            tot = 0.0
+            for j, m in enumerate(out):
+                i = rng.calls[j].items[rng.calls[j].index]
+                c.prove(m.smiles == smis[i] and m.fully_generated and abs(m.weight - masses[i]) < 1e-6,
+                        "yielded molecule is the picked component's generate() result", detail("a yielded molecule is not an instance of the picked component", info))
+                if j == len(out) - 1:
+                    c.prove(And(tot < S, tot + m.weight >= S), "stop exactly at the system mass", detail("iteration does not stop at the first molecule reaching the system mass", info))
+                tot += m.weight
+            return len(out)
+
+        explore_case(res, h, tier, on_path=on_path)
     else:
         def h(c):
             which = c.fresh_int("which", 0, 2).__index__()
@@ -214,6 +246,38 @@ def replay(rp, gb):
             raised = True
         bad = system.generable is not False or not raised
         return bad, f"generable={system.generable} raised={raised}"
+    if kind == "real":
+        import numpy as np
+
+        system = gb.System("C.|50%|CC.|100|")
+        S, f0 = vals["S"], vals["f0"]
+        for mol, f in zip(system._molecules, (f0, 100 - f0)):
+            mol.mixture._relative_mass = f
+            mol.mixture._system_mass = S
+            mol.mixture._absolute_mass = f / 100.0 * S
+        picks = eval(vals["picks"])
+        rng = ScriptedRng(picks)
+        System.generator.fget.__defaults__ = (rng,)
+        out = []
+        try:
+            for m in system.generator:
+                out.append(m)
+                if len(out) > 10:
+                    break
+        except ReplayDone:
+            pass
+        bad = []
+        tot = 0.0
+        for j, m in enumerate(out):
+            want = ["C", "CC"][picks[j]] if j < len(picks) else None
+            if m.smiles != want or not m.fully_generated:
+                bad.append(f"molecule {j} is {m.smiles}, picked component {want}")
+            if j == len(out) - 1 and not (tot < S <= tot + m.weight):
+                bad.append(f"stop rule: before={tot} after={tot + m.weight} S={S}")
+            tot += m.weight
+        if len(out) > 4:
+            bad.append("too many molecules")
+        return bool(bad), f"yielded {[m.smiles for m in out]} S={S}: {bad}"
     k = rp["k"]
     system = gb.System(TEXT[k])
     picks = eval(vals["picks"])
